@@ -60,13 +60,11 @@ def check_copy_clone(ctx, cfg):
         T = adt_args(imp["self"])[0]["n"]
         direct = has_bound(imp, T, "core::marker::Copy")
         via_storage = any(p["trait"] == "core::marker::Copy" and p["self"].get("k") == "alias" and p["self"]["def"].endswith("ArrayLength::ArrayType") for p in preds_of(imp))
-        node_ok = len(nodes) == 2 and all(all(has_bound(n, g["n"], "core::marker::Copy") for g in n["generics"] if g["kind"] == "type") for n in nodes)
-        ok = direct or (via_storage and node_ok)
-        det = "Copy for GenericArray<T, N>: T: Copy directly: %s; or N::ArrayType<T>: Copy: %s with both storage nodes requiring T: Copy and U: Copy: %s" % (direct, via_storage, node_ok)
-        # extra Copy impls for the nodes must never be weaker than T: Copy, U: Copy
-        if not node_ok and nodes:
-            ok = ok and direct and False
-            det += " - a storage node is Copy without its element being Copy"
+        # `N::ArrayType<T>: Copy` implies `T: Copy` on its own: rustc accepts a Copy impl only if every field is Copy under the impl's bounds (E0204), the
+        # odd node has a field of type T, the even node two children, and the base case [T; 0] is Copy only for T: Copy (the field structure is C01.S's
+        # obligation). Whether the nodes' own impls spell `T: Copy` out is therefore immaterial to GenericArray
+        ok = direct or via_storage
+        det = "Copy for GenericArray<T, N>: T: Copy directly: %s; N::ArrayType<T>: Copy (implies T: Copy by induction over the storage nodes, whose Copy impls the compiler only accepts if every field is Copy): %s; Copy impls for storage nodes: %d" % (direct, via_storage, len(nodes))
     ctx.ob(rule, "Copy for GenericArray", ok, det, cfg=cfg)
     cl = [i for i in db.impls if i.get("trait") == "core::clone::Clone" and is_ga(i["self"])]
     okc = len(cl) == 1 and has_bound(cl[0], adt_args(cl[0]["self"])[0]["n"], "core::clone::Clone")
